@@ -571,6 +571,13 @@ static void DecodeSFR(Word Code) {
  * \param  IsZ 1 if it's ASCIZ
  * ------------------------------------------------------------------------ */
 
+static void DecodeWORD(Word Code) {
+    /* low byte first, whatever target was assembled before */
+
+    SetMoto16Turn(False);
+    DecodeMotoADR(Code);
+}
+
 static void DecodeASCII_ASCIZ(Word IsZ) {
     int     z, l;
     Boolean OK;
@@ -684,7 +691,7 @@ static void InitFields(void) {
     AddInstTable(InstTable, "ASCII", 0, DecodeASCII_ASCIZ);
     AddInstTable(InstTable, "ASCIZ", 1, DecodeASCII_ASCIZ);
     AddInstTable(InstTable, "BYTE", 0, DecodeMotoBYT);
-    AddInstTable(InstTable, "WORD", 0, DecodeMotoADR);
+    AddInstTable(InstTable, "WORD", 0, DecodeWORD);
     AddInstTable(InstTable, "BLOCK", 0, DecodeMotoDFS);
     AddInstTable(InstTable, "BIT", 0, DecodeBIT);
 
